@@ -1,0 +1,16 @@
+"""Verification hooks (off by default).
+
+Enabled only when the environment variable MICROJS_VERIF=1 is set at import
+time.  The engine calls the callbacks below, when they are set, at the head of
+every interpreter loop iteration.  With the guard off the cost is one
+attribute test per iteration and behaviour is unchanged.
+"""
+
+import os
+
+ENABLED = os.environ.get("MICROJS_VERIF") == "1"
+
+# f(vm): called before every VM instruction, in both run loops
+on_vm_step = None
+# f(rvm, loop, pc, sp, nstack): called on every step of the three regex loops
+on_regex_step = None
